@@ -464,8 +464,14 @@ func runShutdownCase(r *mon.Run, c ShutdownCase) {
 func checkRejections(r *mon.Run, c ShutdownCase, w *limitlab.World, node *limitlab.Node, atts []*limitlab.Attacker, vcase any) bool {
 	ctx, cancel := context.WithTimeout(context.Background(), 10*time.Second)
 	defer cancel()
+	target := "127.0.19.250:9"
+	if ac, err := w.NewAcceptor("127.0.19.250", nil); err == nil {
+		// somebody is listening: only the syncer itself can refuse
+		target = ac.Addr
+		defer ac.Close()
+	}
 	cp := bounded(func() {
-		if p, err := node.S.Connect(ctx, "127.0.19.250:9"); err == nil {
+		if p, err := node.S.Connect(ctx, target); err == nil {
 			r.Violation("connect-accepted-after-close", "Connect after Close returned a peer instead of an error", vcase, fmt.Sprint(p))
 		} else {
 			r.Count("shutdown.rejected_after_close.connect", 1)
